@@ -16,3 +16,35 @@ def _parse(src):
 
 def sig_startswith(signature, prefix):
     return list(signature[:len(prefix)]) == list(prefix)
+
+
+_COOKIE = re.compile(br'^[ \t\f]*#.*?coding[:=][ \t]*([-\w.]+)')
+
+
+def shebang_declares_non_utf8(case, signature, observed, params):
+    """D9: the first line is a shebang that also carries a PEP 263 coding declaration for a non-UTF-8 codec,
+    shebang preservation is on, and the failure is that the UTF-8 encoded output no longer denotes the same program."""
+    if signature[0] not in ('utf8-bytes-tree-differs', 'utf8-output-unparseable', 'cli-bytes-tree-differs', 'cli-output-unparseable'):
+        return False
+    if not case.get('preserve'):
+        return False
+    data = case['bytes']
+    first = re.split(br'\r\n|\r|\n', data, maxsplit=1)[0]
+    if not first.startswith(b'#!'):
+        return False
+    m = _COOKIE.match(first)
+    if not m:
+        return False
+    import codecs
+    try:
+        name = codecs.lookup(m.group(1).decode('ascii')).name
+    except (LookupError, UnicodeDecodeError):
+        return False
+    return name not in ('utf-8', 'ascii')
+
+
+def c17_listed(case, signature, observed, params):
+    """D11: exactly the listed (option, base, corpus file) triples lengthen; anything else is a new violation."""
+    if signature[0] != 'longer-with-option':
+        return False
+    return [signature[1], signature[2], signature[3]] in params['triples']
